@@ -434,7 +434,8 @@ def normalise_atoms(atoms):
     global _FATOM
     if _FATOM is None:
         import re
-        _FATOM = re.compile(rb"f-?[0-9]+(\.[0-9]+)?\Z")
+        # the byte-level model carries a lexed real as the text it was written as: "+1.50", ".5", "5." are numbers too
+        _FATOM = re.compile(rb"f[-+]?([0-9]+\.?[0-9]*|\.[0-9]+)\Z")
     return [(b"F%08x" % f32_of_text(a[1:])) if _FATOM.match(a) else a for a in atoms]
 
 
